@@ -56,50 +56,96 @@ Qed.
 
 Definition link_in (v : vobj) (keep : list name) : Prop := forall x, v_link v = Some x -> In x keep.
 
+Definition retained_by_cutoff (before : time) (v : vobj) : bool :=
+  negb (match v_created v with Some cr => cr <? before | None => false end).
+
 (* the version whose nodes are kept for the name n, if any *)
-Definition kept_version (b : bucket V) (g : list (name * vobj)) (cs cur : list name) (n : name) : option vobj :=
+Definition kept_version (b : bucket V) (g : list (name * vobj)) (cs cur mrg : list name) (before : time)
+           (n : name) : option vobj :=
+  let from_merged :=
+    if mem n mrg && negb (mem n cs) then
+      match ver_in b [PMerged] n with
+      | Some v => if retained_by_cutoff before v then Some v else None
+      | None => None
+      end
+    else None in
   match (match find (fun kv => fst kv =? n) g with
          | Some (_, v) => if mem n cs then None else Some v
          | None => None
          end) with
   | Some v => Some v
-  | None => if mem n cur then ver_in b [PCur] n else None
+  | None => if mem n cur then match ver_in b [PCur] n with Some v => Some v | None => from_merged end
+            else from_merged
   end.
 
-Theorem remaining_links_spec b g cs cur names : forall acc,
-  spec b (remaining_links c g cs cur names acc)
+Theorem remaining_links_spec b g cs cur mrg before names : forall acc,
+  spec b (remaining_links c g cs cur mrg before names acc)
        (fun keep => incl acc keep /\
-          forall n, In n names -> forall v, kept_version b g cs cur n = Some v -> link_in v keep).
+          forall n, In n names -> forall v, kept_version b g cs cur mrg before n = Some v -> link_in v keep).
 Proof.
   induction names as [|n rest IH]; intros acc; cbn [remaining_links].
   - apply spec_ret. split; [apply incl_refl|]. intros n [].
-  - assert (Step : forall v,
+  - set (Post := fun (vv : option vobj) (keep : list name) =>
+           incl acc keep /\ (forall v, vv = Some v -> link_in v keep) /\
+           forall n0, In n0 rest -> forall v0, kept_version b g cs cur mrg before n0 = Some v0 -> link_in v0 keep).
+    assert (Step : forall v,
               spec b (bind (load_tree c v) (fun l =>
                          match l with
-                         | LTree _ => remaining_links c g cs cur rest (match v_link v with Some x => x :: acc | None => acc end)
+                         | LTree _ => remaining_links c g cs cur mrg before rest (match v_link v with Some x => x :: acc | None => acc end)
                          | LGone => Fail E_LOADTREE
                          | LErr e => Fail e
-                         end))
-                   (fun keep => incl acc keep /\ link_in v keep /\
-                      forall n0, In n0 rest -> forall v0, kept_version b g cs cur n0 = Some v0 -> link_in v0 keep)).
+                         end)) (Post (Some v))).
     { intros v. eapply (spec_bind oeq plan); [apply (spec_ro b _ (load_tree_ro v))|].
       intros l _. destruct l as [t| |e]; try apply spec_fail.
       eapply spec_conseq; [|apply IH]. intros keep [Hi Hr]. split; [|split; [|exact Hr]].
       - intros x Hx. apply Hi. destruct (v_link v); [right|]; exact Hx.
-      - intros x Hx. apply Hi. rewrite Hx. left. reflexivity. }
-    unfold kept_version in *.
+      - intros v0 E x Hx. injection E as <-. apply Hi. rewrite Hx. left. reflexivity. }
+    assert (Skip : spec b (remaining_links c g cs cur mrg before rest acc) (Post None)).
+    { eapply spec_conseq; [|apply IH]. intros keep [Hi Hr]. split; [exact Hi|]. split; [intros v0 E; discriminate|exact Hr]. }
+    (* the merged/ branch *)
+    assert (FromMerged : spec b
+              (if mem n mrg && negb (mem n cs) then
+                 bind (load_root_any [PMerged] n) (fun ro =>
+                   match ro with
+                   | Some v => if (match v_created v with Some cr => cr <? before | None => false end)
+                               then remaining_links c g cs cur mrg before rest acc
+                               else bind (load_tree c v) (fun l =>
+                                      match l with
+                                      | LTree _ => remaining_links c g cs cur mrg before rest (match v_link v with Some x => x :: acc | None => acc end)
+                                      | LGone => Fail E_LOADTREE
+                                      | LErr e => Fail e
+                                      end)
+                   | None => remaining_links c g cs cur mrg before rest acc
+                   end)
+               else remaining_links c g cs cur mrg before rest acc)
+              (Post (if mem n mrg && negb (mem n cs) then
+                       match ver_in b [PMerged] n with
+                       | Some v => if retained_by_cutoff before v then Some v else None
+                       | None => None
+                       end
+                     else None))).
+    { destruct (mem n mrg && negb (mem n cs)); [|exact Skip].
+      eapply (spec_bind oeq plan); [apply load_root_general|]. intros ro ->.
+      destruct (ver_in b [PMerged] n) as [v|]; [|exact Skip].
+      unfold retained_by_cutoff. destruct (match v_created v with Some cr => cr <? before | None => false end); cbn [negb]; [exact Skip|apply Step]. }
+    assert (Fin : forall vv, spec b (remaining_links c g cs cur mrg before (n :: rest) acc) (Post vv) -> True) by auto.
+    clear Fin.
+    (* assemble *)
+    assert (Goal' : forall vv prog0, kept_version b g cs cur mrg before n = vv ->
+              spec b prog0 (Post vv) ->
+              spec b prog0 (fun keep => incl acc keep /\
+                 forall n0, In n0 (n :: rest) -> forall v0, kept_version b g cs cur mrg before n0 = Some v0 -> link_in v0 keep)).
+    { intros vv prog0 Ek Hs. eapply spec_conseq; [|exact Hs]. intros keep (Hi & Hv & Hr). split; [exact Hi|].
+      intros n0 [<-|Hin] v0 E; [rewrite Ek in E; exact (Hv v0 E)|exact (Hr n0 Hin v0 E)]. }
+    unfold kept_version at 1 in Goal'.
     destruct (match find (fun kv => fst kv =? n) g with Some (_, v) => if mem n cs then None else Some v | None => None end) as [v|] eqn:F.
-    + eapply spec_conseq; [|apply (Step v)]. intros keep (Hi & Hl & Hr). split; [exact Hi|].
-      intros n0 [<-|Hin] v0 E; [rewrite F in E; injection E as <-; exact Hl|exact (Hr n0 Hin v0 E)].
+    + apply (Goal' (Some v)); [reflexivity|apply Step].
     + destruct (mem n cur) eqn:Mc.
       * eapply (spec_bind oeq plan); [apply load_root_general|]. intros ro ->.
         destruct (ver_in b [PCur] n) as [v|] eqn:Vn.
-        -- eapply spec_conseq; [|apply (Step v)]. intros keep (Hi & Hl & Hr). split; [exact Hi|].
-           intros n0 [<-|Hin] v0 E; [rewrite F, Mc, Vn in E; injection E as <-; exact Hl|exact (Hr n0 Hin v0 E)].
-        -- eapply spec_conseq; [|apply IH]. intros keep [Hi Hr]. split; [exact Hi|].
-           intros n0 [<-|Hin] v0 E; [rewrite F, Mc, Vn in E; discriminate|exact (Hr n0 Hin v0 E)].
-      * eapply spec_conseq; [|apply IH]. intros keep [Hi Hr]. split; [exact Hi|].
-        intros n0 [<-|Hin] v0 E; [rewrite F, Mc in E; discriminate|exact (Hr n0 Hin v0 E)].
+        -- apply (Goal' (Some v)); [reflexivity|apply Step].
+        -- eapply Goal'; [reflexivity|exact FromMerged].
+      * eapply Goal'; [reflexivity|exact FromMerged].
 Qed.
 
 Lemma mem_in n l : mem n l = true <-> In n l.
@@ -114,42 +160,64 @@ Proof.
 Qed.
 
 (* what keepReachableNodes lets through: never the root node of this handle's own tree, of a
-   version of the history that stays, or of ANY version under current/ (also a deletable one
-   that was never retired) *)
-Theorem keep_reachable_spec b (h : handle (V := V)) g cs blocks :
-  spec b (keep_reachable c h g cs blocks)
+   version of the history that stays, of ANY version under current/ (also a deletable one that
+   was never retired), or of a superseded version under merged/ that the cutoff retains *)
+Theorem keep_reachable_spec b (h : handle (V := V)) g cs before blocks :
+  spec b (keep_reachable c h g cs before blocks)
        (fun res =>
           forall x, In x res ->
             In x blocks /\
             h_link h <> Some x /\
-            (forall kv, In kv g -> find (fun kv' => fst kv' =? fst kv) g = Some kv -> mem (fst kv) cs = false ->
-                        v_link (snd kv) <> Some x) /\
-            (forall n v, ver_in b [PCur] n = Some v ->
-                         (find (fun kv' => fst kv' =? n) g = None \/ mem n cs = true) ->
+            (forall n v, kept_version b g cs (o_names (b_cur b)) (o_names (b_merged b)) before n = Some v ->
+                         (In n (map fst g) \/ o_get n (b_cur b) <> None \/ o_get n (b_merged b) <> None) ->
                          v_link v <> Some x)).
 Proof.
   unfold keep_reachable. destruct blocks as [|b0 blocks]; [apply spec_ret; intros x []|].
+  apply (spec_list oeq plan err_only); [|apply spec_fail]. cbn [sel].
   apply (spec_list oeq plan err_only); [|apply spec_fail]. cbn [sel].
   eapply (spec_bind oeq plan); [apply remaining_links_spec|].
   intros keep [Hi Hr]. apply spec_ret. intros x Hx. apply filter_In in Hx. destruct Hx as [Hx Hk].
   apply negb_true_iff in Hk.
   assert (Nk : ~ In x keep) by (intros H; apply mem_in in H; congruence).
-  split; [exact Hx|]. split; [|split].
+  split; [exact Hx|]. split.
   - intros E. apply Nk. apply Hi. rewrite E. left. reflexivity.
-  - intros kv Hin Hf Hm E. apply Nk.
-    assert (Hn : In (fst kv) (fold_right insert_sorted [] (map fst g ++ o_names (b_cur b)))).
-    { apply in_sorted_names. apply in_or_app. left. apply in_map. exact Hin. }
-    apply (Hr _ Hn (snd kv)); [|exact E]. unfold kept_version. rewrite Hf. destruct kv as [k0 v0]. cbn [fst snd] in *. rewrite Hm. reflexivity.
-  - intros n v Hv Hcase E. apply Nk.
-    assert (Hc : In n (o_names (b_cur b))).
-    { apply (in_o_names oeq). cbn [ver_in sel] in Hv. destruct (o_get n (b_cur b)); discriminate. }
-    assert (Hn : In n (fold_right insert_sorted [] (map fst g ++ o_names (b_cur b)))).
-    { apply in_sorted_names. apply in_or_app. right. exact Hc. }
-    apply (Hr _ Hn v); [|exact E]. unfold kept_version.
-    assert (Mc : mem n (o_names (b_cur b)) = true) by (apply mem_in; exact Hc).
-    destruct Hcase as [Hf|Hm].
-    + rewrite Hf, Mc. exact Hv.
-    + destruct (find (fun kv' => fst kv' =? n) g) as [[k0 v0]|]; [rewrite Hm|]; rewrite Mc; exact Hv.
+  - intros n v Hv Hwhere E. apply Nk.
+    assert (Hn : In n (fold_right insert_sorted [] (map fst g ++ o_names (b_cur b) ++ o_names (b_merged b)))).
+    { apply in_sorted_names. apply in_or_app. destruct Hwhere as [H|[H|H]]; [left; exact H|right|right];
+        apply in_or_app; [left|right]; apply (in_o_names oeq); exact H. }
+    exact (Hr _ Hn v Hv x E).
+Qed.
+
+(* the three cases of interest, spelled out *)
+Corollary kept_graph_version b g cs cur mrg before kv :
+  find (fun kv' => fst kv' =? fst kv) g = Some kv -> mem (fst kv) cs = false ->
+  kept_version b g cs cur mrg before (fst kv) = Some (snd kv).
+Proof. intros Hf Hm. unfold kept_version. rewrite Hf. destruct kv as [k v]. cbn [fst snd] in *. rewrite Hm. reflexivity. Qed.
+
+Corollary kept_current_version b g cs mrg before n v :
+  ver_in b [PCur] n = Some v ->
+  (find (fun kv' => fst kv' =? n) g = None \/ mem n cs = true) ->
+  kept_version b g cs (o_names (b_cur b)) mrg before n = Some v.
+Proof.
+  intros Hv Hcase. unfold kept_version.
+  assert (Mc : mem n (o_names (b_cur b)) = true).
+  { apply mem_in. apply (in_o_names oeq). cbn [ver_in sel] in Hv. destruct (o_get n (b_cur b)); discriminate. }
+  destruct Hcase as [Hf|Hm].
+  - rewrite Hf, Mc, Hv. reflexivity.
+  - destruct (find (fun kv' => fst kv' =? n) g) as [[k0 v0]|]; [rewrite Hm|]; rewrite Mc, Hv; reflexivity.
+Qed.
+
+Corollary kept_retained_merged_version b g cs before n v :
+  find (fun kv' => fst kv' =? n) g = None -> o_get n (b_cur b) = None -> mem n cs = false ->
+  ver_in b [PMerged] n = Some v -> retained_by_cutoff before v = true ->
+  kept_version b g cs (o_names (b_cur b)) (o_names (b_merged b)) before n = Some v.
+Proof.
+  intros Hf Hc Hm Hv Hr. unfold kept_version. rewrite Hf.
+  assert (Mc : mem n (o_names (b_cur b)) = false).
+  { destruct (mem n (o_names (b_cur b))) eqn:E; [|reflexivity]. apply mem_in in E. apply (in_o_names oeq) in E. contradiction. }
+  assert (Mm : mem n (o_names (b_merged b)) = true).
+  { apply mem_in. apply (in_o_names oeq). cbn [ver_in sel] in Hv. destruct (o_get n (b_merged b)); discriminate. }
+  rewrite Mc, Mm, Hm, Hv, Hr. reflexivity.
 Qed.
 
 End Keep.
